@@ -636,6 +636,10 @@ def gen_vhistory(rng: random.Random, derive=False):
                     b["frozen"] = True
             keep = len(profiles) < 8  # the derived object becomes profile number len(profiles) of the history
             steps.append({"op": "derive", "p": i, "how": r.choice(V_MULTI_DERIVE if pm else V_LIST_DERIVE), "ballots": bs, "arg": r.randint(0, 5), "as": r.choice(["plain", "same", "self"]), "keep": keep})
+            if pm and bs and steps[-1]["how"] in ("__add__", "__sub__", "__or__", "__and__") and (sub + k) % 3 == 0:
+                # (decided without a draw: the histories keep their seeds) the operand is a plain Counter that may hold ballots of ANY
+                # type with positive, zero and NEGATIVE multiplicities - Counter arithmetic copies negative entries of the operand
+                steps[-1]["as"] = "signed"
             if keep:
                 profiles.append((pk, pm))
             continue
@@ -867,9 +871,15 @@ def run_vderive(w: VWorld, k, st, target, spec, T, profs, v, counts):
     pcls = type(target)
     call = pcls.__name__ + "." + how
     bs = [w.ballot(b) for b in st["ballots"]]
+    wrong_operand = False
+    if st["as"] == "signed":
+        signed = Counter({b: [-1, 2, -2, 0, 1, -1][(n + j) % 6] for j, b in enumerate(bs)})
+        wrong_operand = validated and any(not isinstance(b, T) for b in signed)
     if validated:
         bs = [b for b in bs if isinstance(b, T)]
-    if st["as"] == "self":
+    if st["as"] == "signed":
+        other = signed
+    elif st["as"] == "self":
         other = target
     elif st["as"] == "same":
         # an object of the same class with its own attributes: validation off, default ballot type, no instance
@@ -909,7 +919,10 @@ def run_vderive(w: VWorld, k, st, target, spec, T, profs, v, counts):
         res = thunk()
     except Exception as ex:  # noqa: BLE001
         raised = ex
-    if raised is not None:
+    if raised is not None and wrong_operand and isinstance(raised, TypeError):
+        counts.append(("v_outcome", "wrong-typed ballot in a signed operand refused"))
+        res = None
+    elif raised is not None:
         v(k, call, "derive_raised", f"{call} of a {'validating ' if validated else ''}{pcls.__name__} created with ballot_type {T.__name__} holding {sorted({type(b).__name__ for b in target})} raised {type(raised).__name__}: {raised}", impl=repr(raised)[:200], expected="a " + pcls.__name__)
         res = None
     elif res is NotImplemented:
